@@ -331,7 +331,7 @@ RepoCase(x) ==
       \* the class predicates are quadratic in the length of the run; the only repository programs that
       \* fall into a finding class are string-length and string-copy (a branch on a just-loaded byte with work in its shadow)
       tags == IF kind \in {"len", "copy"} THEN {"shadow_of_slow_branch"} ELSE {}
-  IN [CaseRec("Repo", p, r0, "zero", 512, fin, {}, {}, tags, [kind |-> kind, a |-> x[2], b |-> x[3]]) EXCEPT !.mem0 = m0]
+  IN CaseRecM("Repo", p, r0, m0, "zero", 512, fin, {}, {}, tags, [kind |-> kind, a |-> x[2], b |-> x[3]])
 
 (* ------------------------------- Unroll (C05, C07) -------------------------- *)
 (* straight-line walks (no branch, hence no pipeline flush): n accesses at stride 64  *)
